@@ -1605,7 +1605,7 @@ func (c06) Gen(rng *rand.Rand, tier string, emit func(string)) {
 
 	nbase := 450
 	if tier == "thorough" {
-		nbase = 1500
+		nbase = 1000
 	}
 	chunkChoices := []int{1, 2, 7, 100, 3, 16}
 	for i := 0; i < nbase; i++ {
@@ -1673,6 +1673,9 @@ func (c06) Gen(rng *rand.Rand, tier string, emit func(string)) {
 		}
 		// the same multiset in several input orders and configurations
 		nvar := 3
+		if len(base) > 5000 {
+			nvar = 1
+		}
 		for v := 0; v < nvar; v++ {
 			cc := cs
 			cc.recs = append([]c06Rec{}, base...)
@@ -1683,8 +1686,9 @@ func (c06) Gen(rng *rand.Rand, tier string, emit func(string)) {
 			if rng.Intn(5) == 0 {
 				cc.chunks = 1 + rng.Intn(len(base)+2) // every chunk count 1..N
 			}
-			if len(base) > 5000 && cc.chunks < 7 {
-				cc.chunks = 100
+			if len(base) > 5000 {
+				// the model recomputes the CRC of a record once per chunk: keep the chunk count small here
+				cc.chunks = []int{7, 16}[rng.Intn(2)]
 			}
 			cc.workers = 1 + rng.Intn(16)
 			cc.bsize = 1 + rng.Intn(len(base)+2)
